@@ -14,6 +14,7 @@ def run(tier, seed):
         ("bind", list(gen_calls.binding_matrix(3, rng, 1500 if quick else 40000)), 1, 2, ("top", "fn0")),
         ("bind2", list(gen_calls.binding_matrix(2)) if not quick else list(gen_calls.binding_matrix(1)), 0, 1, ("top",)),
         ("binda", list(gen_calls.binding_all_lists(3)), 0, 1, ("top",)),
+        ("spread", list(gen_calls.spread_matrix(rng, 60 if quick else 625)), 0, 1, ("top", "fn0")),
         ("clo", [a for _ in range(12 if quick else 200) for a in gen_calls.closure_templates(rng)], 1, 3, None),
     ]
     g = gen_calls.CallGen(rng)
